@@ -194,7 +194,9 @@ pub fn generate(seed: u64, g: &GenCtx) -> Scenario {
                 let placement = if f_shared_buf && rng.chance(3, 4) {
                     Placement::Shared
                 } else if f_place && rng.chance(2, 3) {
-                    if rng.chance(1, 2) {
+                    if rng.chance(1, 6) {
+                        Placement::Boundary { permille: rng.below(1001) as u16, junk: rng.below(16) as u8 }
+                    } else if rng.chance(1, 2) {
                         Placement::Slack { extra: rng.range(1, 64) as u16, junk: rng.below(16) as u8 }
                     } else {
                         Placement::Sub { pre: rng.below(17) as u8, junk: rng.below(16) as u8 }
@@ -371,6 +373,7 @@ fn op_to_json(op: &Op) -> Json {
                     Placement::Slack { extra, junk } => format!("slack:{extra}:{junk}"),
                     Placement::Sub { pre, junk } => format!("sub:{pre}:{junk}"),
                     Placement::Shared => "shared".to_string(),
+                    Placement::Boundary { permille, junk } => format!("boundary:{permille}:{junk}"),
                 }),
             );
             let mut k = Json::obj();
@@ -468,6 +471,10 @@ pub fn scenario_from_json(j: &Json) -> Result<Scenario, String> {
                             junk: pa.get(1).copied().unwrap_or(0) as u8,
                         },
                         "shared" => Placement::Shared,
+                        "boundary" => Placement::Boundary {
+                            permille: pa.first().copied().unwrap_or(500) as u16,
+                            junk: pa.get(1).copied().unwrap_or(0) as u8,
+                        },
                         "sub" => Placement::Sub {
                             pre: pa.first().copied().unwrap_or(0) as u8,
                             junk: pa.get(1).copied().unwrap_or(0) as u8,
